@@ -107,6 +107,8 @@ struct Cfg {
 	/// force_close_avoidance_max_fee_satoshis per node
 	fcamax: [u64; 2],
 	upfront: bool,
+	/// our_to_self_delay per node (0 = default)
+	tsd: [u16; 2],
 }
 
 fn esc(s: &str) -> String {
@@ -798,7 +800,7 @@ impl<'a, 'b, 'c, 'd> Env<'a, 'b, 'c, 'd> {
 fn parse_cfg(head: &str) -> Cfg {
 	let mut c = Cfg {
 		id: "?".to_string(), ct: 0, value: 100_000, push: 0, fee: 253, resppm: 10_000, zr: 0, maxacc: 50, infl: 100, hmin: 1,
-		resppm_b: 0, maxacc_b: 0, infl_b: 0, hmin_b: u64::MAX, hd: [0, 0], fcamax: [1000, 1000], upfront: true,
+		resppm_b: 0, maxacc_b: 0, infl_b: 0, hmin_b: u64::MAX, hd: [0, 0], fcamax: [1000, 1000], upfront: true, tsd: [0, 0],
 	};
 	let t: Vec<&str> = head.split_whitespace().collect();
 	if t.len() > 1 {
@@ -826,6 +828,8 @@ fn parse_cfg(head: &str) -> Cfg {
 				"fcamax0" => c.fcamax[0] = n,
 				"fcamax1" => c.fcamax[1] = n,
 				"upfront" => c.upfront = n != 0,
+				"tsd0" => c.tsd[0] = n as u16,
+				"tsd1" => c.tsd[1] = n as u16,
 				_ => {},
 			}
 		}
@@ -853,6 +857,12 @@ fn run_scenario(line: &str) -> String {
 	user_cfg.channel_handshake_config.commit_upfront_shutdown_pubkey = c.upfront;
 	user_cfg.channel_config.force_close_avoidance_max_fee_satoshis = c.fcamax[0];
 	let mut user_cfg_b = user_cfg.clone();
+	if c.tsd[0] != 0 {
+		user_cfg.channel_handshake_config.our_to_self_delay = c.tsd[0];
+	}
+	if c.tsd[1] != 0 {
+		user_cfg_b.channel_handshake_config.our_to_self_delay = c.tsd[1];
+	}
 	if c.resppm_b != 0 {
 		user_cfg_b.channel_handshake_config.their_channel_reserve_proportional_millionths = c.resppm_b;
 	}
